@@ -9,6 +9,7 @@ import (
 	"sort"
 	"strings"
 	"time"
+	"unsafe"
 )
 
 // PointKind distinguishes the two kinds of recorded choice points.
@@ -38,9 +39,9 @@ type Thread struct {
 	ID      int
 	Name    string
 	wake    chan struct{}
-	enabled func() bool
+	enabled Enabler
 	desc    string // description of the pending operation (for diagnostics/oracles)
-	descFn  func() string
+	descFn  fmt.Stringer
 	Done    bool
 	started bool
 	body    func()
@@ -65,6 +66,7 @@ type timer struct {
 	active bool
 	name   string
 	id     uint64
+	tok    byte // released by the creator, acquired by the timer function's thread
 }
 
 // Exec is one controlled execution.
@@ -119,18 +121,80 @@ type Exec struct {
 	Data any
 }
 
+// The baton: every channel operation that passes control between goroutines goes through
+// these helpers so that the race detector does not see it.
+
+//go:norace
+func batonSend(ch chan struct{}) {
+	RaceDisable()
+	ch <- struct{}{}
+	RaceEnable()
+}
+
+//go:norace
+func batonTrySend(ch chan struct{}) {
+	RaceDisable()
+	select {
+	case ch <- struct{}{}:
+	default:
+	}
+	RaceEnable()
+}
+
+//go:norace
+func batonRecv(ch chan struct{}) {
+	RaceDisable()
+	<-ch
+	RaceEnable()
+}
+
+//go:norace
+func batonClose(ch chan struct{}) {
+	RaceDisable()
+	close(ch)
+	RaceEnable()
+}
+
+//go:norace
+func batonClosed(ch chan struct{}) bool {
+	RaceDisable()
+	defer RaceEnable()
+	select {
+	case <-ch:
+		return true
+	default:
+		return false
+	}
+}
+
+//go:norace
+func batonRecvTimeout(ch chan struct{}, d time.Duration) bool {
+	RaceDisable()
+	defer RaceEnable()
+	select {
+	case <-ch:
+		return true
+	case <-time.After(d):
+		return false
+	}
+}
+
 // Epoch is the virtual wall-clock origin.
 var Epoch = time.Date(2024, 1, 1, 0, 0, 0, 0, time.UTC)
 
 var cur *Exec
 
 // Cur returns the active execution (nil when free-running).
+//
+//go:norace
 func Cur() *Exec { return cur }
 
 // ErrDiverged is reported when a replayed prefix does not fit the execution.
 type divergence struct{ msg string }
 
 // NewExec prepares an execution that will replay prefix and then take choice 0.
+//
+//go:norace
 func NewExec(prefix []int) *Exec {
 	return &Exec{prefix: prefix, MaxSteps: 20000, finished: make(chan struct{}), NumWorkers: 1, AutoTimers: true, TimerHorizon: 0}
 }
@@ -138,6 +202,8 @@ func NewExec(prefix []int) *Exec {
 // Run executes body as thread 0 and returns when the execution is over (all threads
 // done, or quiescent with nothing enabled, or the step horizon was hit). Parked threads
 // are then unwound with runtime.Goexit.
+//
+//go:norace
 func (x *Exec) Run(body func()) {
 	if cur != nil {
 		panic("vrt: nested Exec")
@@ -146,11 +212,12 @@ func (x *Exec) Run(body func()) {
 	t := x.newThread("main", body, -1, "")
 	x.cur = t
 	x.start(t)
-	<-x.finished
+	batonRecv(x.finished)
 	x.abortAll()
 	cur = nil
 }
 
+//go:norace
 func (x *Exec) newThread(name string, body func(), spawner int, site string) *Thread {
 	t := &Thread{ID: len(x.Threads), Name: name, wake: make(chan struct{}, 1), body: body, exited: make(chan struct{}), Spawner: spawner, Site: site}
 	x.Threads = append(x.Threads, t)
@@ -159,6 +226,8 @@ func (x *Exec) newThread(name string, body func(), spawner int, site string) *Th
 
 // Touch records that the running thread performed an operation (code) on the shared
 // object whose happens-before cell is cell: both absorb each other's history.
+//
+//go:norace
 func (x *Exec) Touch(cell *uint64, code uint64) {
 	t := x.cur
 	h := mix(mix(t.hb, *cell), code)
@@ -167,12 +236,18 @@ func (x *Exec) Touch(cell *uint64, code uint64) {
 }
 
 // HB returns the running thread's history hash.
+//
+//go:norace
 func (x *Exec) HB() uint64 { return x.cur.hb }
 
 // Absorb mixes a value into the running thread's history (results of reads, choices).
+//
+//go:norace
 func (x *Exec) Absorb(v uint64) { x.cur.hb = mix(x.cur.hb, v) }
 
 // CellFor returns the hb cell of an address-identified object.
+//
+//go:norace
 func (x *Exec) CellFor(p uintptr) *uint64 {
 	if x.cells == nil {
 		x.cells = map[uintptr]*uint64{}
@@ -186,6 +261,8 @@ func (x *Exec) CellFor(p uintptr) *uint64 {
 }
 
 // stateKey hashes every thread's history, the clock and the pending timers.
+//
+//go:norace
 func (x *Exec) stateKey() uint64 {
 	var acc uint64
 	for _, t := range x.Threads {
@@ -205,11 +282,12 @@ func (x *Exec) stateKey() uint64 {
 	return mix(acc, tacc)
 }
 
+//go:norace
 func (x *Exec) start(t *Thread) {
 	t.started = true
 	go func() {
-		defer close(t.exited)
-		<-t.wake
+		defer batonClose(t.exited)
+		batonRecv(t.wake)
 		if x.aborting {
 			return
 		}
@@ -238,11 +316,13 @@ func (x *Exec) start(t *Thread) {
 		x.threadExit(t)
 	}()
 	if t.ID == 0 {
-		t.wake <- struct{}{}
+		batonSend(t.wake)
 	}
 }
 
 // Go spawns a new logical thread; it becomes schedulable at the next scheduling point.
+//
+//go:norace
 func Go(name string, fn func()) {
 	x := cur
 	if x == nil {
@@ -271,8 +351,11 @@ func Go(name string, fn func()) {
 }
 
 // Me returns the running thread.
+//
+//go:norace
 func (x *Exec) Me() *Thread { return x.cur }
 
+//go:norace
 func (x *Exec) threadExit(t *Thread) {
 	next := x.pickNext(nil)
 	if next == nil {
@@ -280,34 +363,29 @@ func (x *Exec) threadExit(t *Thread) {
 		return
 	}
 	x.cur = next
-	next.wake <- struct{}{}
+	batonSend(next.wake)
 }
 
+//go:norace
 func (x *Exec) finish() {
 	if !x.finishedOnce {
 		x.finishedOnce = true
-		close(x.finished)
+		batonClose(x.finished)
 	}
 }
 
+//go:norace
 func (x *Exec) abortAll() {
 	x.aborting = true
 	for _, t := range x.Threads {
 		if !t.started {
 			continue
 		}
-		select {
-		case <-t.exited:
+		if batonClosed(t.exited) {
 			continue
-		default:
 		}
-		select {
-		case t.wake <- struct{}{}:
-		default:
-		}
-		select {
-		case <-t.exited:
-		case <-time.After(5 * time.Second):
+		batonTrySend(t.wake)
+		if !batonRecvTimeout(t.exited, 5*time.Second) {
 			// a thread that does not unwind is stuck in native code: leak it loudly
 			x.Failed = append(x.Failed, fmt.Sprintf("thread %d (%s) did not unwind; pending=%s", t.ID, t.Name, t.Pending()))
 		}
@@ -315,25 +393,76 @@ func (x *Exec) abortAll() {
 }
 
 // Aborting reports whether the execution is being torn down (shims become no-ops).
+//
+//go:norace
 func (x *Exec) Aborting() bool { return x.aborting }
+
+// Enabler tells the scheduler whether a parked operation can proceed. The shims implement
+// it with named types whose methods are excluded from race instrumentation (closures
+// cannot be): the scheduler evaluates it from whatever goroutine holds the baton.
+type Enabler interface{ Enabled() bool }
+
+type funcEnabler struct{ f func() bool }
+
+//go:norace
+func (f funcEnabler) Enabled() bool { return f.f() }
+
+type neverEnabled struct{}
+
+//go:norace
+func (neverEnabled) Enabled() bool { return false }
+
+// Never is an operation that can never proceed (nil channel operations).
+var Never Enabler = neverEnabled{}
+
+// YieldOp is Yield for shim operations (no closures).
+//
+//go:norace
+func (x *Exec) YieldOp(op Enabler, d fmt.Stringer) {
+	x.yieldOp(op, "", d)
+}
 
 // Yield is the scheduling point: the running thread announces a pending operation that
 // is enabled when enabled() is true (nil = always) and lets the scheduler decide who
 // runs next. It returns when this thread has been chosen and its operation is enabled.
-func (x *Exec) Yield(enabled func() bool, desc string) { x.yield(enabled, desc, nil) }
+//
+//go:norace
+func (x *Exec) Yield(enabled func() bool, desc string) {
+	if enabled == nil {
+		x.yieldOp(nil, desc, nil)
+		return
+	}
+	x.yieldOp(funcEnabler{enabled}, desc, nil)
+}
 
 // YieldFn is Yield with a lazily rendered description (hot paths).
-func (x *Exec) YieldFn(enabled func() bool, descFn func() string) { x.yield(enabled, "", descFn) }
+//
+//go:norace
+func (x *Exec) YieldFn(enabled func() bool, descFn func() string) {
+	if enabled == nil {
+		x.yieldOp(nil, "", fnStringer{descFn})
+		return
+	}
+	x.yieldOp(funcEnabler{enabled}, "", fnStringer{descFn})
+}
+
+type fnStringer struct{ f func() string }
+
+//go:norace
+func (f fnStringer) String() string { return f.f() }
 
 // Pending describes the operation the thread is parked at.
+//
+//go:norace
 func (t *Thread) Pending() string {
 	if t.descFn != nil {
-		return t.desc + t.descFn()
+		return t.desc + t.descFn.String()
 	}
 	return t.desc
 }
 
-func (x *Exec) yield(enabled func() bool, desc string, descFn func() string) {
+//go:norace
+func (x *Exec) yieldOp(enabled Enabler, desc string, descFn fmt.Stringer) {
 	if x.aborting {
 		return
 	}
@@ -341,10 +470,10 @@ func (x *Exec) yield(enabled func() bool, desc string, descFn func() string) {
 	x.Steps++
 	if x.Steps > x.MaxSteps {
 		x.HorizonHit = true
-		t.enabled = func() bool { return false }
+		t.enabled = Never
 		t.desc, t.descFn = "HORIZON "+desc, descFn
 		x.finish()
-		<-t.wake
+		batonRecv(t.wake)
 		runtime.Goexit()
 	}
 	t.enabled = enabled
@@ -354,13 +483,13 @@ func (x *Exec) yield(enabled func() bool, desc string, descFn func() string) {
 		// nothing can run: quiescent / deadlock
 		x.Deadlock = true
 		x.finish()
-		<-t.wake
+		batonRecv(t.wake)
 		runtime.Goexit()
 	}
 	if next != t {
 		x.cur = next
-		next.wake <- struct{}{}
-		<-t.wake
+		batonSend(next.wake)
+		batonRecv(t.wake)
 		if x.aborting {
 			runtime.Goexit()
 		}
@@ -368,6 +497,7 @@ func (x *Exec) yield(enabled func() bool, desc string, descFn func() string) {
 	t.enabled = nil
 }
 
+//go:norace
 func (t *Thread) isEnabled() bool {
 	if t.Done {
 		return false
@@ -375,10 +505,12 @@ func (t *Thread) isEnabled() bool {
 	if t.enabled == nil {
 		return true
 	}
-	return t.enabled()
+	return t.enabled.Enabled()
 }
 
 // pickNext chooses the next thread. running is the yielding thread (nil at thread exit).
+//
+//go:norace
 func (x *Exec) pickNext(running *Thread) *Thread {
 	for {
 		var en []*Thread
@@ -416,6 +548,7 @@ func (x *Exec) pickNext(running *Thread) *Thread {
 	}
 }
 
+//go:norace
 func (x *Exec) choose(kind PointKind, n int, cost []uint8, label string) int {
 	i := len(x.Points)
 	c := 0
@@ -432,6 +565,8 @@ func (x *Exec) choose(kind PointKind, n int, cost []uint8, label string) int {
 
 // Choose is an environment choice among n alternatives; cost[i] deviations are charged
 // for alternative i (nil = all free). Alternative 0 is the default behaviour.
+//
+//go:norace
 func (x *Exec) Choose(n int, cost []uint8, label string) int {
 	if x.aborting {
 		runtime.Goexit()
@@ -447,7 +582,17 @@ func (x *Exec) Choose(n int, cost []uint8, label string) int {
 	return c
 }
 
+type othersIdle struct {
+	x  *Exec
+	me *Thread
+}
+
+//go:norace
+func (o othersIdle) Enabled() bool { return o.x.OthersIdle(o.me) }
+
 // OthersIdle reports whether no thread other than me is enabled.
+//
+//go:norace
 func (x *Exec) OthersIdle(me *Thread) bool {
 	for _, t := range x.Threads {
 		if t != me && t.isEnabled() {
@@ -459,6 +604,8 @@ func (x *Exec) OthersIdle(me *Thread) bool {
 
 // Settle runs every other thread, deterministically and without recording choices, until
 // none of them can make progress; then the caller continues with branching restored.
+//
+//go:norace
 func (x *Exec) Settle() {
 	if x.aborting {
 		return
@@ -466,18 +613,13 @@ func (x *Exec) Settle() {
 	me := x.cur
 	old := x.NoBranch
 	x.NoBranch = true
-	x.Yield(func() bool {
-		for _, t := range x.Threads {
-			if t != me && t.isEnabled() {
-				return false
-			}
-		}
-		return true
-	}, "settle")
+	x.yieldOp(othersIdle{x, me}, "settle", nil)
 	x.NoBranch = old
 }
 
 // SettleUntil settles and fires every timer due up to virtual time d (deterministically).
+//
+//go:norace
 func (x *Exec) SettleUntil(d time.Duration) {
 	for {
 		x.Settle()
@@ -493,6 +635,8 @@ func (x *Exec) SettleUntil(d time.Duration) {
 }
 
 // Choices returns the choice list of this execution (a replayable schedule).
+//
+//go:norace
 func (x *Exec) Choices() []int {
 	out := make([]int, len(x.Points))
 	for i, p := range x.Points {
@@ -502,12 +646,18 @@ func (x *Exec) Choices() []int {
 }
 
 // NewObjID hands out deterministic object ids.
+//
+//go:norace
 func (x *Exec) NewObjID() int { x.nextObj++; return x.nextObj }
 
 // Panic returns the first panic raised by a thread of this execution, if any.
+//
+//go:norace
 func (x *Exec) Panic() (any, string) { return x.panicVal, x.panicStk }
 
 // Parked returns the threads that are neither done nor enabled.
+//
+//go:norace
 func (x *Exec) Parked() []*Thread {
 	var out []*Thread
 	for _, t := range x.Threads {
@@ -518,12 +668,14 @@ func (x *Exec) Parked() []*Thread {
 	return out
 }
 
+//go:norace
 func (x *Exec) Logf(format string, args ...any) {
 	x.Log = append(x.Log, fmt.Sprintf(format, args...))
 }
 
 // ---- virtual time ----
 
+//go:norace
 func (x *Exec) addTimer(d time.Duration, name string, fn func()) *timer {
 	if d < 0 {
 		d = 0
@@ -534,10 +686,12 @@ func (x *Exec) addTimer(d time.Duration, name string, fn func()) *timer {
 		x.Touch(&x.timerCell, 0x71)
 		tm.id = x.cur.hb
 	}
+	RaceRelease(unsafe.Pointer(&tm.tok))
 	x.timers = append(x.timers, tm)
 	return tm
 }
 
+//go:norace
 func (x *Exec) pendingTimers() []*timer {
 	var out []*timer
 	keep := x.timers[:0]
@@ -558,6 +712,8 @@ func (x *Exec) pendingTimers() []*timer {
 }
 
 // NextTimer returns the due time of the earliest pending timer.
+//
+//go:norace
 func (x *Exec) NextTimer() (time.Duration, bool) {
 	p := x.pendingTimers()
 	if len(p) == 0 {
@@ -568,6 +724,8 @@ func (x *Exec) NextTimer() (time.Duration, bool) {
 
 // fireEarliestTimer advances the clock to the earliest pending timer and runs its
 // function in a fresh thread. Returns false if there is none within the horizon.
+//
+//go:norace
 func (x *Exec) fireEarliestTimer() bool {
 	p := x.pendingTimers()
 	if len(p) == 0 {
@@ -584,13 +742,18 @@ func (x *Exec) fireEarliestTimer() bool {
 	return true
 }
 
+//go:norace
 func (x *Exec) fire(tm *timer) {
 	if tm.when > x.Now {
 		x.Now = tm.when
 	}
 	tm.active = false
 	x.TimerFires++
-	t := x.newThread("timer:"+tm.name, tm.fn, -1, "timer")
+	fn := tm.fn
+	t := x.newThread("timer:"+tm.name, func() {
+		RaceAcquire(unsafe.Pointer(&tm.tok))
+		fn()
+	}, -1, "timer")
 	t.path = mix(tm.id, 0xf19e)
 	t.hb = mix(tm.id, uint64(tm.when))
 	x.start(t)
@@ -598,6 +761,8 @@ func (x *Exec) fire(tm *timer) {
 
 // FireNextTimer lets a harness thread fire the earliest pending timer explicitly
 // (an environment action). The timer function becomes a runnable thread.
+//
+//go:norace
 func (x *Exec) FireNextTimer() bool {
 	p := x.pendingTimers()
 	if len(p) == 0 {
@@ -608,13 +773,18 @@ func (x *Exec) FireNextTimer() bool {
 }
 
 // Advance moves the virtual clock forward without firing anything.
+//
+//go:norace
 func (x *Exec) Advance(d time.Duration) { x.Now += d }
 
 // WallNow is the virtual wall-clock reading.
+//
+//go:norace
 func (x *Exec) WallNow() time.Time { return Epoch.Add(x.Now) }
 
 // ---- happens-before hashing (state caching) ----
 
+//go:norace
 func mix(a, b uint64) uint64 {
 	h := a ^ (b + 0x9e3779b97f4a7c15 + (a << 6) + (a >> 2))
 	h ^= h >> 33
@@ -624,6 +794,8 @@ func mix(a, b uint64) uint64 {
 }
 
 // NumWorkers replaces runtime.GOMAXPROCS(0) in instrumented code.
+//
+//go:norace
 func NumWorkers() int {
 	if cur == nil {
 		return runtime.GOMAXPROCS(0)
@@ -632,6 +804,8 @@ func NumWorkers() int {
 }
 
 // Point is a plain scheduling point (always enabled), e.g. before an atomic operation.
+//
+//go:norace
 func PointAlways(desc string) {
 	x := cur
 	if x == nil {
